@@ -353,6 +353,21 @@ StringDictionaryHHTFC::StringDictionaryHHTFC(IteratorDictString *it,
 
     delete[] tmp;
 
+    // Registering the substring still pending when the input ends: it
+    // belongs to the header code if the last string opens a bucket, and to
+    // the code of the internal strings otherwise
+    if (textSubstr.size() > 0) {
+      if (((elements - 1) % bucketsize) == 0)
+        builderHT->insertEndingSubstr(&codeSubstr, &ptrSubstr, &textSubstr,
+                                      &lenSubstr);
+      else
+        builderHU->insertEndingSubstr(&codeSubstr, &ptrSubstr, &textSubstr,
+                                      &lenSubstr);
+    }
+
+    // The closing byte is part of the sequence: it must be the zero padding
+    // the decoding tables were built for
+    textStrings[bytesStrings] = 0;
     bytesStrings++;
     xblStrings.push_back(bytesStrings);
     blStrings = new LogSequence(&xblStrings, bits(bytesStrings));
@@ -640,9 +655,14 @@ uchar *StringDictionaryHHTFC::getHeader(size_t idbucket) {
 }
 
 ChunkScan StringDictionaryHHTFC::decodeHeader(size_t idbucket) {
-  uchar *ptr = textStrings + blStrings->getField(idbucket);
+  size_t ptrH = blStrings->getField(idbucket);
+  uchar *ptr = textStrings + ptrH;
+  // Never read beyond the sequence: the last header is followed by padding
+  uint remain = maxcomplength;
+  if (bytesStrings - ptrH < remain)
+    remain = bytesStrings - ptrH;
   ChunkScan chunk = {
-      0, 0, ptr, maxcomplength, new uchar[4 * maxlength + tableHT->getK()],
+      0, 0, ptr, remain, new uchar[4 * maxlength + tableHT->getK()],
       0, 0, 1};
 
   // Variables used for adjusting purposes
